@@ -6,6 +6,8 @@ import (
 	"math/rand"
 	"os"
 	"path/filepath"
+	"sync/atomic"
+	"time"
 
 	"verif/harness/internal/agent"
 	"verif/harness/internal/core"
@@ -97,6 +99,11 @@ func e2eConcWorker(args []string) error {
 			g := e2e.NewUp4Gen(w, rng.Int63(), 1, 4, false)
 			g.PeerBase, g.SessionOnly, g.UEAlloc, g.AddFlows = i, true, w.Cfg.UEIPAlloc, true
 			g.Disjoint(i)
+
+			if i > 0 {
+				g.ShareFiltersOf(gens[0].(*e2e.Up4Gen))
+			}
+
 			gens[i], stats[i] = g, g.Stats
 		} else {
 			g := e2e.NewGen(w, rng.Int63(), e2e.GenOpt{Peers: 1, MaxSessions: 4, UEAlloc: w.Cfg.UEIPAlloc, PeerBase: i, SessionOnly: true})
@@ -106,6 +113,44 @@ func e2eConcWorker(args []string) error {
 		if ds := w.Assoc(name); len(ds) == 1 && ds[0].Cause == 1 {
 			gens[i].MarkAssoc(name)
 		}
+	}
+
+	if w.P4 != nil {
+		// the switch takes a little while to carry a write out (up to 2 ms): while one association's write is on its way,
+		// what the others do must not build on it
+		atomic.StoreInt64(&w.P4.WriteDelayMaxNs, int64(2*time.Millisecond))
+	}
+
+	// UP4: two associations whose sessions use ONE application filter (and one gNB) take turns: while the one deletes its session -
+	// the last user of the filter - the other establishes a session with that filter; after every such pair (datapath quiet)
+	// the tables are judged: the applications entry and the tunnel peer of the new session are there
+	if w.P4 != nil && !w.Died && len(gens) >= 2 {
+		ga, gb := gens[0].(*e2e.Up4Gen), gens[1].(*e2e.Up4Gen)
+		ga.OneFilter, gb.OneFilter = true, true
+
+		if ga.Establish("p1") {
+			x, y, nx, ny := ga, gb, "p1", "p2"
+
+			for k := 0; k < 16 && !w.Died; k++ {
+				xs := x.Last()
+				if xs == nil || !xs.Live() {
+					break
+				}
+
+				lag := time.Duration(rng.Intn(12000)) * time.Microsecond // the establishment arrives somewhere in the middle of the deletion
+				w.Concurrently([]func(){func() { x.DeleteAny(xs) }, func() { time.Sleep(lag); y.Establish(ny) }})
+				sum.Scenarios++
+				x, y, nx, ny = y, x, ny, nx
+			}
+
+			_ = nx
+
+			if s := x.Last(); s != nil && s.Live() && !w.Died {
+				x.DeleteAny(s)
+			}
+		}
+
+		ga.OneFilter, gb.OneFilter = false, false
 	}
 
 	for r := 0; r < p.Rounds && !w.Died; r++ {
